@@ -151,9 +151,17 @@ Theorem C13_result_wellformed : forall o gid f inj exp g,
   wf_func f -> Forall (fun nd => fst nd <> 0) exp ->
   update_wrapper_opt o gid f inj exp = Ok g ->
   exists s, sig_of (b_func g) = Ok s /\ wf_params (sg_params s) = true /\
-            spec_wraps (func_sig f) inj exp = Ok s.
+            spec_wraps_opt (o_inject_to_varkw o) (func_sig f) inj exp = Ok s.
 Proof. exact result_wellformed. Qed.
 Print Assumptions C13_result_wellformed.
+
+(* inject_to_varkw=False: a name that is no ordinary parameter is refused even with **kwargs *)
+Theorem C13_inject_strict : forall o gid f n,
+  wf_func f -> o_inject_to_varkw o = false ->
+  existsb (removable n) (sg_params (func_sig f)) = false ->
+  exists e, update_wrapper_opt o gid f [n] [] = Raise e.
+Proof. exact inject_strict. Qed.
+Print Assumptions C13_inject_strict.
 
 (* ---- stacked decorators, and functions that already carry attributes ------------------------------ *)
 (* __wrapped__ of the result is the wrapped function whatever __dict__ that one
